@@ -228,7 +228,9 @@ Definition do_try (w : world) (t : N) : world * result :=
       let '(st, df, _, dc, _, _, _, _) := mark_completed_gen false false (c_dc w) (cap w) false (c_state w) in
       let w := set_crow w st df dc in
       let w := set_book w (BStop (c_id w) t false) in
-      let w := set_draining w true in
+      (* _finalize_failed_run -> _report_run (FAIL), then _drain_for_unexpected_input_changes *)
+      let w := set_draining w (drain_for_changes_gen || draining w
+                               || report_drains_gen (determine_tag_gen false false false false) (keep_going w)) in
       (w, RTry false)
     else
       let w := set_dyn w [] in                                  (* reset_for_rerun drops dynamic inputs *)
@@ -335,7 +337,8 @@ Definition do_end_core (flagging : bool) (w : world) (t : N) (cmd_ok : bool) (ch
       let w := set_crow w st df dc in
       let w := set_book w (BStop (c_id w) t hash_some) in   (* succeeded = new_hash is not None *)
       let tag := determine_tag_gen interrupted ru rf success in
-      let w := set_draining w (draining w || report_drains_gen tag (keep_going w) || unexpected) in
+      let w := set_draining w (draining w || report_drains_gen tag (keep_going w)
+                               || (unexpected && drain_for_changes_gen)) in
       (set_run w None, REnd)
   end.
 
